@@ -15,5 +15,5 @@ type VerifGossiper interface {
 }
 
 func VerifNewSyncer(cs *cluster.State) *VerifSyncer { return newSyncer(cs, log.NewNopLogger()) }
-func (s *syncer) VerifSync(g VerifGossiper)          { s.Sync(g) }
-func (s *syncer) VerifPending() int                  { s.mu.Lock(); defer s.mu.Unlock(); return len(s.pendingNodes) }
+func (s *syncer) VerifSync(g VerifGossiper)         { s.Sync(g) }
+func (s *syncer) VerifPending() int                 { s.mu.Lock(); defer s.mu.Unlock(); return len(s.pendingNodes) }
